@@ -213,6 +213,19 @@ MUTANTS: dict[str, dict[str, list[tuple[str, str, str]]]] = {
         return [], kwargs""")],
     },
     'C11': {
+        'extend-tolerates-a-refused-connection': [('forml/flow/_graph/span.py',
+                                                   """            right.subscribe(self.publisher)
+            if not tail:""",
+                                                   """            try:
+                right.subscribe(self.publisher)
+            except _exception.TopologyError:
+                pass  # connected before
+            if not tail:""")],
+        'extend-publishes-the-head': [('forml/flow/_graph/span.py',
+                                       """            right.subscribe(self.publisher)
+            if not tail:""",
+                                       """            right.subscribe(self._head[0].publisher if self._head.szout else self.publisher)
+            if not tail:""")],
         'any-dying-subscription-frees-the-port': [('forml/flow/_graph/port.py', 'if ports and ports.get(self.port) == id(self):',
                                                    'if ports and self.port in ports:')],
         'publish-rollback-removed': [('forml/flow/_graph/port.py',
